@@ -1,9 +1,10 @@
 import Blots.Model.ExprPeg
 /-
-  Driver handler for the character-level model of the `expression` rule (C10, operator
-  fragment).
+  Driver handler for the character-level model of the `expression` rule (C10: operators,
+  calls, index and field accesses, list literals, lambdas, conditionals).
 
-    expr-items <hstr text>   → ((pre RULE) (prim EXPR) (post fact) (inf RULE) …) | none
+    expr-items <hstr text>   → ((pre RULE) (prim EXPR) (post fact) (post access EXPR)
+                                (post dot HSTR) (post call (EXPR …)) (inf RULE) …) | none
         `ExprPeg.exprItems` with the fuel `ExprPeg.fuelFor` on the characters of the text;
         the item sequence in the wire form the harness builds from the real pest pairs
         (`fmtcommon.rs::pitems`) when the `expression` rule consumes the WHOLE text, `none`
